@@ -469,14 +469,31 @@ fn history(r: &mut Report, args: &Args, idx: u64, seed: u64) {
         }
     }
 
-    // ---- cut enumeration of one more update ------------------------------
-    match srv.publish_random(&mut rng) {
-        Ok(d) => steps.push(d),
-        Err(e) => {
-            r.violation("consistent-delta-refused", &e, wit(&steps, json!({})));
-            return
+    // ---- cut enumeration of one more update, or of a session reset --------
+    // (every third history: the writes of an explicit session reset are cut
+    // instead; nothing is staged then, so the content stays what it was)
+    let final_reset = idx % 3 == 2;
+    r.distinct("final_operation", if final_reset { "session-reset" }
+                                  else { "update" });
+    if final_reset {
+        truth.reset_expected = true;
+        steps.push(json!("session_reset (cut)"));
+    } else {
+        match srv.publish_random(&mut rng) {
+            Ok(d) => steps.push(d),
+            Err(e) => {
+                r.violation("consistent-delta-refused", &e,
+                            wit(&steps, json!({})));
+                return
+            }
         }
     }
+    let final_op = |srv: &mut Server| -> Result<(), String> {
+        if final_reset {
+            srv.w.krill.repo_manager().rrdp_session_reset()
+                .map_err(|e| e.to_string())
+        } else { srv.update() }
+    };
     wait_interval(&ret);
     let data = srv.w.data_dir();
     let pre = args.work.join(format!("h{idx}-pre"));
@@ -493,10 +510,11 @@ fn history(r: &mut Report, args: &Args, idx: u64, seed: u64) {
         srcs: vec![(data.clone(), "data".into()), (repo.clone(), "repo".into())],
         dst: cuts.clone(), max_cuts: 200,
     }), None, None);
-    let res = srv.update();
+    let res = final_op(&mut srv);
     let (muts, _) = hooks::end();
     if let Err(e) = res {
-        r.violation("update-failed", &e, wit(&steps, json!({})));
+        r.violation(if final_reset { "session-reset-failed" }
+                    else { "update-failed" }, &e, wit(&steps, json!({})));
         return
     }
     r.max("cuts_per_update", muts.len() as u64);
@@ -545,7 +563,7 @@ fn history(r: &mut Report, args: &Args, idx: u64, seed: u64) {
             if realisation == "eio" {
                 c2 = client.clone();
                 hooks::begin(None, Some(m.n), None);
-                let res = srv2.update();
+                let res = final_op(&mut srv2);
                 let (_, injected) = hooks::end();
                 r.count("eio_runs", 1);
                 if injected && res.is_ok() {
